@@ -30,7 +30,7 @@ func (Prop) Assumptions() []string {
 func (Prop) Plan(tier string) []lib.Workload {
 	n := 300
 	if tier == "thorough" {
-		n = 30000
+		n = 4000
 	}
 	return []lib.Workload{{Name: "schedules", Cases: n, MinNontrivial: n / 4}}
 }
